@@ -15,7 +15,7 @@ RULE = ("for every piece (bar plans with signature changes and empty bars x note
         "transition = one tokenise call on the next g bars for EVERY g, so all 2^(n-1) partitions are paths; every state "
         "is compared with the single-call tokenisation of the same prefix and terminal states with the bars themselves; "
         "non-trivial = a partition with >=2 calls where a later chunk contains a note")
-SCALE = ('8-bar pieces with all 128 groupings; general pauses of 7/8/16/24 bars in 4/4, 3/8, 5/8, 7/8, 9/8, 6/8 that begin mid-bar and end with an upbeat / on a bar line / early in a bar, calls ending at 7 positions around the pause (all groupings of those)')
+SCALE = ('8-bar pieces with all 128 groupings; general pauses of 7/8/16/24 bars in 4/4, 3/8, 5/8, 7/8, 9/8, 6/8 that begin mid-bar and end with an upbeat / on a bar line / early in a bar, calls ending at 7 positions around the pause (all groupings of those); from every second state a rejected call that must leave the dictionary unchanged; nine-track pieces in which track numbers coincide with note values')
 ASSUMPTIONS = ["token lists and state dictionaries of different partitions need not be equal, only their detokenised meaning",
                "the state dictionary is the only carrier of state between calls, so a call that the tokeniser rejects must leave "
                "the caller's dictionary as it found it (the caller repeats the call with repaired input)"]
